@@ -317,7 +317,7 @@ func genC04Message(rt *rapid.T, st *c04State) (topic string, data []byte, desc s
 			}
 			continue
 		}
-		kind := rapid.SampledFrom([]string{"instance", "eon", "sender", "sender", "sender", "count0", "countMax1", "identity", "swap", "swap", "swap", "swap", "dup", "blob-other-keyper", "blob-other-identity", "blob-foreign", "blob-trunc", "blob-trunc", "blob-trunc", "blob-infinity", "blob-random", "blob-empty", "blob-empty", "swap-type", "version", "unknown-any", "nongossip-any", "trailing"}).Draw(rt, l)
+		kind := rapid.SampledFrom([]string{"instance", "eon", "sender", "sender", "sender", "count0", "countMax1", "identity", "swap", "swap", "swap", "swap", "dup", "blob-other-keyper", "blob-other-identity", "blob-foreign", "blob-trunc", "blob-trunc", "blob-trunc", "blob-infinity", "blob-random", "blob-empty", "blob-empty", "blob-extended", "blob-extended", "swap-type", "version", "unknown-any", "nongossip-any", "trailing"}).Draw(rt, l)
 		muts = append(muts, kind)
 		nItems := len(shares.Shares)
 		pick := func() int { return rapid.IntRange(0, max(nItems-1, 0)).Draw(rt, l+"item") }
@@ -387,6 +387,13 @@ func genC04Message(rt *rapid.T, st *c04State) (topic string, data []byte, desc s
 			if nItems > 0 {
 				i := pick()
 				setBlob(i, g1Infinity, g1Infinity)
+			}
+		case "blob-extended":
+			// a valid encoding followed by further bytes is not an encoding of a share or key
+			if nItems > 0 {
+				i := pick()
+				ext := rapid.SliceOfN(rapid.Byte(), 1, 48).Draw(rt, l+"ext")
+				setBlob(i, append(append([]byte{}, shares.Shares[i].Share...), ext...), append(append([]byte{}, keysMsg.Keys[i].Key...), ext...))
 			}
 		case "blob-empty":
 			// absent or zero-length key / share bytes (nil and empty are the same on the wire)
